@@ -34,36 +34,36 @@ where
     let r = b.init(&mut delay);
     match r {
         Ok(d) => {
-            assert!(supported, "C11: an unsupported interface kind must be refused");
+            kani::assert(supported, "C11: an unsupported interface kind must be refused");
             let (di, _m, rst) = d.release();
             // ---- C17 reset comes first
             if with_pin {
                 let p = rst.unwrap();
-                assert!(p.first_low_op == Some(0), "C17: reset pin driven low first");
-                assert!(p.sets == 2 && p.level == Some(true), "C17: exactly low then high, left high");
-                assert!(p.high_ns >= p.low_ns + 10_000, "C17: reset low for at least 10 us");
-                assert!(di.n_swreset == 0, "C17: no software reset when a reset pin is configured");
-                assert!(di.first_cmd_op.unwrap() > p.last_high_op.unwrap(), "C17: nothing on the bus until the pin is high again");
+                kani::assert(p.first_low_op == Some(0), "C17: reset pin driven low first");
+                kani::assert(p.sets == 2 && p.level == Some(true), "C17: exactly low then high, left high");
+                kani::assert(p.high_ns >= p.low_ns + 10_000, "C17: reset low for at least 10 us");
+                kani::assert(di.n_swreset == 0, "C17: no software reset when a reset pin is configured");
+                kani::assert(di.first_cmd_op.unwrap() > p.last_high_op.unwrap(), "C17: nothing on the bus until the pin is high again");
             } else {
-                assert!(di.first_cmd == Some((0x01, 0)) && di.first_cmd_op == Some(0), "C17: software reset is the first thing on the bus");
-                assert!(di.n_swreset == 1, "C17: software reset sent exactly once");
+                kani::assert(di.first_cmd == Some((0x01, 0)) && di.first_cmd_op == Some(0), "C17: software reset is the first thing on the bus");
+                kani::assert(di.n_swreset == 1, "C17: software reset sent exactly once");
             }
             // ---- C11 controller state
-            assert!(!di.sleeping, "C11: controller awake after init");
-            assert!(di.on, "C11: display switched on");
-            assert!(di.madctl == Some(want_madctl), "C11: address mode equals the encoding of the options");
-            assert!(di.colmod == Some(<M::ColorFormat as ExpectColmod>::COLMOD), "C05: C11: announced interface pixel format does not match the colour type");
-            assert!(di.inverted == Some(want_inv), "C11: inversion as chosen");
-            assert!(di.ramwr == 0 && di.px_calls == 0, "C11: no pixel memory written");
-            assert!(clock.ns.get() >= di.t_slp_ns.unwrap() + 120_000_000, "C11: C13: init returned earlier than 120 ms after sleep-out");
-            assert!(di.min_slp_gap_ns >= 120_000_000, "C13: sleep-in/out commands at least 120 ms apart");
+            kani::assert(!di.sleeping, "C11: controller awake after init");
+            kani::assert(di.on, "C11: display switched on");
+            kani::assert(di.madctl == Some(want_madctl), "C11: address mode equals the encoding of the options");
+            kani::assert(di.colmod == Some(<M::ColorFormat as ExpectColmod>::COLMOD), "C05: C11: announced interface pixel format does not match the colour type");
+            kani::assert(di.inverted == Some(want_inv), "C11: inversion as chosen");
+            kani::assert(di.ramwr == 0 && di.px_calls == 0, "C11: no pixel memory written");
+            kani::assert(clock.ns.get() >= di.t_slp_ns.unwrap() + 120_000_000, "C11: C13: init returned earlier than 120 ms after sleep-out");
+            kani::assert(di.min_slp_gap_ns >= 120_000_000, "C13: sleep-in/out commands at least 120 ms apart");
         }
         Err(InitError::InvalidConfiguration(ConfigurationError::UnsupportedInterface)) => {
-            assert!(!supported, "C11: a supported pairing must stay supported");
+            kani::assert(!supported, "C11: a supported pairing must stay supported");
             // only the builder's own reset may have happened
         }
         Err(_) => {
-            assert!(false, "C09: valid configuration rejected / C12: error without a fault");
+            kani::assert(false, "C09: valid configuration rejected / C12: error without a fault");
         }
     }
     kani::cover!(with_pin);
@@ -77,8 +77,8 @@ fn refuse_case<M: Model, const KIND: u8>(mut model: M) {
     let mut di: CtrlMock<KIND> = CtrlMock::new(&clock);
     let mut delay = MockDelay(&clock);
     let r = model.init(&mut di, &mut delay, &options);
-    assert!(matches!(r, Err(crate::models::ModelInitError::InvalidConfiguration(ConfigurationError::UnsupportedInterface))), "C11: refused with UnsupportedInterface");
-    assert!(di.n_cmds == 0 && di.px_calls == 0 && clock.ops.get() == 0, "C11: refused before any model command");
+    kani::assert(matches!(r, Err(crate::models::ModelInitError::InvalidConfiguration(ConfigurationError::UnsupportedInterface))), "C11: refused with UnsupportedInterface");
+    kani::assert(di.n_cmds == 0 && di.px_calls == 0 && clock.ops.get() == 0, "C11: refused before any model command");
 }
 
 macro_rules! init_harness {
@@ -157,18 +157,18 @@ fn c09_case<const W: u16, const H: u16>() {
     let fits = size_ok && w + ox <= W as u64 && h + oy <= H as u64;
     match r {
         Ok(d) => {
-            assert!(fits, "C09: accepted a window that does not fit");
-            assert!(!d.is_sleeping(), "C13: not sleeping after init");
+            kani::assert(fits, "C09: accepted a window that does not fit");
+            kani::assert(!d.is_sleeping(), "C13: not sleeping after init");
         }
         Err(InitError::InvalidConfiguration(ConfigurationError::InvalidDisplaySize)) => {
-            assert!(!size_ok, "C09: InvalidDisplaySize for a valid size");
-            assert!(clock.ops.get() == 0 && clock.ns.get() == 0, "C09: hardware touched before rejection");
+            kani::assert(!size_ok, "C09: InvalidDisplaySize for a valid size");
+            kani::assert(clock.ops.get() == 0 && clock.ns.get() == 0, "C09: hardware touched before rejection");
         }
         Err(InitError::InvalidConfiguration(ConfigurationError::InvalidDisplayOffset)) => {
-            assert!(size_ok && !fits, "C09: InvalidDisplayOffset but the size is the problem / the window fits");
-            assert!(clock.ops.get() == 0 && clock.ns.get() == 0, "C09: hardware touched before rejection");
+            kani::assert(size_ok && !fits, "C09: InvalidDisplayOffset but the size is the problem / the window fits");
+            kani::assert(clock.ops.get() == 0 && clock.ns.get() == 0, "C09: hardware touched before rejection");
         }
-        Err(_) => assert!(false, "C09: unexpected error for a fault-free bus"),
+        Err(_) => kani::assert(false, "C09: unexpected error for a fault-free bus"),
     }
     kani::cover!(fits && with_pin);
     kani::cover!(!size_ok);
@@ -199,16 +199,16 @@ where
     let b = Builder { di, model, rst: if with_pin { Some(MockPin::new(&clock)) } else { None }, options };
     let mut delay = MockDelay(&clock);
     match b.init(&mut delay) {
-        Ok(_) => assert!(clock.ops.get() <= k, "C12: a failing operation was swallowed"),
+        Ok(_) => kani::assert(clock.ops.get() <= k, "C12: a failing operation was swallowed"),
         Err(InitError::ResetPin(_)) => {
-            assert!(with_pin && k < 2, "C12: ResetPin error not caused by the reset pin");
-            assert!(clock.ops.get() == k + 1, "C12: operations issued after the failing one");
+            kani::assert(with_pin && k < 2, "C12: ResetPin error not caused by the reset pin");
+            kani::assert(clock.ops.get() == k + 1, "C12: operations issued after the failing one");
         }
         Err(InitError::Interface(_)) => {
-            assert!(if with_pin { k >= 2 } else { true }, "C12: Interface error caused by the reset pin");
-            assert!(clock.ops.get() == k + 1, "C12: operations issued after the failing one");
+            kani::assert(if with_pin { k >= 2 } else { true }, "C12: Interface error caused by the reset pin");
+            kani::assert(clock.ops.get() == k + 1, "C12: operations issued after the failing one");
         }
-        Err(InitError::InvalidConfiguration(_)) => assert!(false, "C12: configuration error for a valid configuration"),
+        Err(InitError::InvalidConfiguration(_)) => kani::assert(false, "C12: configuration error for a valid configuration"),
     }
     kani::cover!(with_pin && k == 1);
     kani::cover!(k == 5);
